@@ -38,6 +38,10 @@ def make_case(rng, case_id):
     data = memgen.gen_bytes(rng, size, org=org)
     snap = [0] * 65536
     snap[org:org + size] = data
+    if top and rng.random() < 0.7:
+        # make an instruction straddle the 64K boundary
+        tail = rng.choice([[0x21], [0xC3], [0xCD, 0x34], [0x3E], [0xDD, 0x21], [0xFD, 0xCB, 0x05], [0xED, 0x43], [0xED, 0x4B, 0x00], [0x18], [0xDD, 0x36, 0x01], [0xCB]])
+        snap[65536 - len(tail):65536] = tail
     opts = []
     hexm = rng.random() < 0.4
     lower = rng.random() < 0.3
